@@ -319,7 +319,7 @@ def m_try(ex, st, callee, A):
                     conv = ex.dispatch(st, f'<{te} as From<{se}>>::from', [pay[0]])
                     if isinstance(conv, (Enter, Diverge)) or (isinstance(conv, list)):
                         if isinstance(conv, Enter) and conv.then is None:
-                            return Enter(conv.func, conv.args, lambda s, v: err(v))
+                            return Enter(conv.func, conv.args, lambda s, v: err(v), conv.subst)
                         if isinstance(conv, list):
                             return [(list(c[0]) + [cond], err(c[1])) + tuple(c[2:]) for c in conv]
                         raise NotEncoded('from_residual conversion')
@@ -472,6 +472,8 @@ def m_result(ex, st, callee, A):
         for cond, name, pay in C():
             alts.append(([cond], ex.call_closure(st, A[1], [pay[0]])) if name == 'Err' else ([cond], ex.call_closure(st, A[2], [pay[0]])))
         return _flatten(ex, alts)
+    if fn in ('cloned', 'copied'):
+        return [([c], ok(scalar(ex, st, p[0])) if n == 'Ok' else err(p[0])) for c, n, p in C()]
     if fn == 'as_ref':
         r = A[0]
         if isinstance(r, Ref):
@@ -598,8 +600,29 @@ def m_misc(ex, st, callee, A):
     return None
 
 
+def m_vec_macro(ex, st, callee, A):
+    """`vec![a, b]` / `nonempty![..]`: Box::new_uninit, the array written through the raw pointer, box_assume_init_into_vec_unsafe"""
+    if re.search(r'Box::<\[.*\]>::new_uninit$', callee):
+        return Opaque('Box<MaybeUninit<[T; N]>>', 'vec! buffer')
+    if re.search(r'box_assume_init_into_vec_unsafe::<', callee):
+        try:
+            nn = ex.opaque_field(ex.opaque_field(A[0], None, 0, 'Unique'), None, 0, 'NonNull')
+            cell = ex.deref(st, nn)
+
+            def fld(x, i):
+                return x.fields[i] if isinstance(x, Agg) else x.over[(None, i)]
+            arr = fld(fld(fld(cell, 1), 0), 0)
+            return Agg('struct', '~vec', None, list(arr.fields))
+        except (KeyError, AttributeError, IndexError) as e:
+            raise NotEncoded(f'vec! buffer shape: {e}')
+    if re.search(r'^(?:std::vec::|alloc::vec::)?Vec::<.*>::new$', callee):
+        return Agg('struct', '~vec', None, [])
+    return None
+
+
 def install(ex):
     for rx, fn in [
+        (r'new_uninit$|box_assume_init_into_vec_unsafe::<|Vec::<.*>::new$', m_vec_macro),
         (r'<impl [iu](8|16|32|64|128|size)>::\w+$', m_int),
         (r'(PartialOrd|PartialEq|Ord)(<[^>]*>)?( for \w+)?>::\w+$', m_int_cmp),
         (r'PartialOrd(<[^>]*>)?>::(lt|le|gt|ge)$', m_partial_ord),
